@@ -22,6 +22,12 @@ def main():
             shutil.rmtree("cache", ignore_errors=True)
             os.makedirs("cache", exist_ok=True)
             continue
+        if st["op"] == "rewrite":
+            # another file is put at the path (History!Rewrite): the path-keyed disk cache belongs to the file that was there
+            shutil.copyfile(st["v2"], st["file"])
+            shutil.rmtree("cache", ignore_errors=True)
+            os.makedirs("cache", exist_ok=True)
+            continue
         from csvpath import CsvPath, CsvPaths
 
         named = st["via"] == "named"
